@@ -371,7 +371,9 @@ def coverage(prog, body, src, family, start=0, region=None, ends=None, depth=0):
             return Cov("bad", "traversal nesting too deep")
         if tr.kind == "for":
             hdr = tr.header
-            sub = coverage(prog, body, Src(("elem", hdr)), family, start=tr.some_bb, region=set(tr.loop), ends=[hdr], depth=depth + 1)
+            # `for (i, x) in it.enumerate()`: the element is field 1 of the yielded pair
+            epath = ["#1"] if (tr.iter_ty or "").startswith("std::iter::Enumerate<") else []
+            sub = coverage(prog, body, Src(("elem", hdr), epath), family, start=tr.some_bb, region=set(tr.loop), ends=[hdr], depth=depth + 1)
             if sub.status == "once":
                 return Cov("once", "full-forward `for`, each element: " + sub.detail, [body.loc(hdr)] + sub.sites, shape=("for", sub.shape))
             return Cov(sub.status, "per-element coverage inside loop at %s: %s" % (body.loc(hdr), sub.detail), sub.sites or [body.loc(hdr)])
